@@ -107,7 +107,7 @@ func cmdCheck(args []string) int {
 				}
 			}
 		}
-		targets = eng.closure(roots)
+		targets = eng.closure(roots, pd.Stops...)
 		for _, n := range uncontracted {
 			sn := eng.shortName(n)
 			fmt.Printf("UNBOUND %s: calls a function guarded by property %s but has no contract\n", sn, *prop)
@@ -204,7 +204,7 @@ func cmdCheck(args []string) int {
 			fmt.Println("queries kept in", dir)
 		}
 	}()
-	opt := solveOpts{timeout: 45 * time.Second, workers: (runtime.NumCPU() + 2) / 3, dir: dir, solvers: []string{"z3new", "z3", "cvc5"}, keep: *keep}
+	opt := solveOpts{timeout: 45 * time.Second, workers: (runtime.NumCPU() + 1) / 2, dir: dir, solvers: []string{"z3new", "z3", "cvc5"}, keep: *keep}
 	if *tier == "thorough" {
 		opt.timeout = 60 * time.Second
 		opt.allAgree = true
@@ -309,8 +309,13 @@ func bodyHash(eng *Engine, fn *ssa.Function) string {
 	return fmt.Sprintf("%x", sum[:6])
 }
 
-func (e *Engine) closure(roots []string) []string {
+func (e *Engine) closure(roots []string, stops ...string) []string {
 	seen := map[string]bool{}
+	// stops: functions whose contract is used but whose body is verified under the properties that own them
+	// (modular verification: a caller is checked against the callee's contract, not its body)
+	for _, st := range stops {
+		seen[st] = true
+	}
 	var out []string
 	var visit func(n string)
 	visit = func(n string) {
